@@ -81,7 +81,7 @@ def format_leaves(T):
     n = z3.BitVec("ascii_n", 16)
     fmt = VecV([Adt("FormatElement", "Literal", [StringV.of("a")]), Adt("FormatElement", "Special", [Adt("FormatSpecial", "Ascii", [n])]),
                 Adt("FormatElement", "Special", [Adt("FormatSpecial", "Newline")])])
-    out.append(("-printf 'a\\NNN\\n'", A_("PrintFormatted", fmt), [z3.ULT(n, 128), n != 34, n != 92, n != 126, n >= 32],
+    out.append(("-printf 'a\\NNN\\n'", A_("PrintFormatted", fmt), [z3.ULT(n, 512), z3.UGE(n, 1)],
                 lambda m, n=n: "-printf 'a\\%03o\\n'" % m.eval(n, model_completion=True).as_long()))
     return out
 
